@@ -171,11 +171,52 @@ def classify(op, a, b, impl, exp):
     return None
 
 
+def short_lived(obj, dim):
+    from pgradd.Units import eval_qty
+    if not any(dim):
+        return obj
+    w = 1.0 * eval_qty('A' if dim[3] == 0.0 else 'cd')
+    return (obj * w) / w
+
+
+def churn_cases(ctx, seed=None):
+    """operands that live for one operation only, in a loop that keeps nothing: the interpreter then hands the addresses of
+    freed quantities and units objects out again, and whatever the package remembers about an object by its identity
+    answers for another object.  The outcome of a + b and a < b must be what the dimensions of a and b say, every time."""
+    import random
+    seed = ctx.seed if seed is None else seed
+    rng = random.Random(seed)
+    kinds = [k for k in KINDS if k[1] is not None]
+    first = None
+    n = 0
+    for rep in range(ctx.n(6, 40)):
+        order = [(a, b) for a in kinds for b in kinds]
+        rng.shuffle(order)
+        for (ka, ua, _), (kb, _, ub) in order:
+            A = make(ka, ua, [2.0], False)
+            B = make(kb, ub, [3.0], False)
+            n += 1
+            for op, fn in (('add', operator.add), ('lt', operator.lt)):
+                r = run_op(fn, A[0], B[0])
+                same = A[2] == B[2]
+                if same != ('err' not in r) and first is None:
+                    first = (op, ua, ub, n, r)
+    ctx.count('churn_operations', 2 * n)
+    ctx.case(None, None)
+    if first is not None:
+        op, ua, ub, k, r = first
+        ctx.violation('the outcome of an operation on two short-lived quantities is not what their dimensions say (it depends on the '
+                      'quantities created and discarded before)', {'churn_seed': seed, 'operation': op, 'a': ua, 'b': ub, 'pair_number': k},
+                      'unitsError exactly when the dimensions differ', r)
+
+
 def one_case(ctx, batch, op, fn, A, B, tag):
     (a_obj, a_si, a_dim, a_arr), (b_obj, b_si, b_dim, b_arr) = A, B
     if not any(a_dim) and not any(b_dim):
         return
-    r = run_op(fn, a_obj, b_obj)
+    # short-lived copies with units objects of their own: whatever the package remembers about a units object must not
+    # outlive it (addresses are reused)
+    r = run_op(lambda x, y: fn(short_lived(x, a_dim), short_lived(y, b_dim)), a_obj, b_obj)
     exp = oracle(op, a_si, a_dim, a_arr, b_si, b_dim, b_arr)
     inp = {'op': op, 'a': {'si': a_si, 'dim': a_dim, 'array': a_arr}, 'b': {'si': b_si, 'dim': b_dim, 'array': b_arr}, 'tag': tag}
     ctx.case(json.dumps([op, a_si, a_dim, a_arr, b_si, b_dim, b_arr]), {'case': inp, 'impl': r})
@@ -232,7 +273,9 @@ def string_entry_cases(ctx, pairs=None):
     here = os.path.dirname(os.path.dirname(os.path.abspath(__file__)))
     pairs = pairs or ([list(p) for p in BLANK_PAIRS] + [[b, a] for a, b in BLANK_PAIRS] + [list(p) for p in UNIT_PAIRS])
     texts = sorted({t for p in pairs for t in p})
-    reps = ctx.model([{'op': 'c10.eval', 'text': t} for t in texts])
+    # what a unit string denotes: the C10 evaluator over the hand-written SI reference table (not over the package's own
+    # definitions, which are what is under test here)
+    reps = ctx.model([{'op': 'c10.eval_ref', 'text': t} for t in texts])
     if reps is None:
         return
     den = dict(zip(texts, reps))
@@ -265,7 +308,7 @@ def string_entry_cases(ctx, pairs=None):
             want = {'add': va + vb, 'lt': va < vb, 'in_units': va / (vb / 3.0)}
             got = {'add': r['add'].get('val'), 'lt': r['lt'].get('bool'), 'in_units': r['in_units'].get('val')}
             for op in ('add', 'lt', 'in_units'):
-                ok = got[op] is not None and (got[op] == want[op] if op == 'lt' else common.close(got[op], want[op], abs(va) + abs(vb)))
+                ok = got[op] is not None and (got[op] == want[op] if op == 'lt' else abs(got[op] - want[op]) <= 2e-6 * max(abs(want[op]), abs(va) + abs(vb) if op == 'add' else 0.0))
                 if not ok:
                     ctx.violation('quantities of the same dimension (built from unit strings) do not combine as their SI magnitudes',
                                   dict(inp, operation=op), want[op], r[op])
@@ -279,6 +322,7 @@ def _dimf(d):
 def run(ctx):
     with L.quiet():
         _run(ctx)
+        churn_cases(ctx)
         string_entry_cases(ctx)
 
 
@@ -472,6 +516,10 @@ def replay(ctx, rec):
     with L.quiet():
         if 'import' in rec.get('input', rec):
             return L.importable(ctx)
+        if 'churn_seed' in rec.get('input', rec):
+            before = len(ctx.violations)
+            churn_cases(ctx, rec.get('input', rec)['churn_seed'])
+            return len(ctx.violations) == before
         if 'strings_in_order_of_use' in rec.get('input', rec):
             before = len(ctx.violations)
             string_entry_cases(ctx, [rec.get('input', rec)['strings_in_order_of_use']])
